@@ -141,6 +141,15 @@ def seeded(pid_filter, seed):
         pid = meta['property']
         if pid_filter and pid != pid_filter:
             continue
+        if meta.get('not_a_violation_of_the_statement'):
+            # kept for the record: the agent's change does not break the property as it
+            # is stated (reason in the meta file and in DESIGN 8.4); not scored
+            rec = {'seeded': name, 'pid': pid, 'killed': None,
+                   'note': 'not a violation of the property as stated: ' +
+                           meta['not_a_violation_of_the_statement'][:200]}
+            results.append(rec)
+            print(json.dumps(rec), flush=True)
+            continue
         d = scratch_copy(name)
         try:
             ap = subprocess.run(['patch', '-p1', '-s', '-i', os.path.join(base, name, 'patch.diff')],
